@@ -400,6 +400,10 @@ func (m *Flow) transfer(node ast.Node, st Facts, rec bool) {
 		}
 		m.assign(lhs, s.Values, st)
 		return
+	case *ast.IncDecStmt, *ast.ExprStmt:
+		m.calls(node, st, rec)
+		m.record(node, st, rec)
+		return
 	}
 	m.calls(node, st, rec)
 }
